@@ -216,6 +216,23 @@ def translate(repo: Path) -> dict:
     deletes_first = del_loops[0] is not add_loops[0] and del_loops[0].lineno < add_loops[0].lineno and \
         not calls(add_loops[0], "_transition_to_absent")
 
+    # --- _transition_to_absent: is the index entry dropped also when nothing is left on disk?  (the `del index[path]`
+    # before / inside the early return for `current_stat is None`)
+    ta = T.find_def(tree, "_transition_to_absent")
+    early = [n for n in ta.body if isinstance(n, ast.If) and isinstance(n.test, ast.Compare) and isinstance(n.test.left, ast.Name)
+             and n.test.left.id == "current_stat" and any(isinstance(x, ast.Return) for x in ast.walk(n))]
+    dels = [n for n in ast.walk(ta) if isinstance(n, ast.Delete)]
+    if not early or not dels:
+        raise T.TranslateError("_transition_to_absent: early return / `del index[path]` not found")
+    absent_drops = any(isinstance(n, ast.Delete) for n in ast.walk(early[0])) or min(d.lineno for d in dels) < early[0].lineno
+
+    # --- _perform_tree_switch: does a forced switch start from the index and visit unchanged paths?
+    ps = T.find_def(ptree, "_perform_tree_switch")
+    tcs = calls(ps, "tree_changes")
+    if not tcs:
+        raise T.TranslateError("_perform_tree_switch: call of tree_changes not found")
+    force_index = any(any(k.arg == "want_unchanged" for k in c.keywords) for c in tcs) and bool(calls(ps, "open_index"))
+
     dotnames = T.const_value(tree, "INVALID_DOTNAMES")
     if not isinstance(dotnames, tuple) or not all(isinstance(x, bytes) for x in dotnames):
         raise T.TranslateError("INVALID_DOTNAMES is not a tuple of bytes")
@@ -261,6 +278,10 @@ def walkLinkDirsAsDirs : Bool := {b(link_dirs_as_dirs)}
 def strictPathDecoding : Bool := {b(strict_decode)}
 /-- `update_working_tree` applies all deletions before it writes -/
 def switchDeletesFirst : Bool := {b(deletes_first)}
+/-- `_transition_to_absent` removes the index entry also when the file is already gone -/
+def absentDropsIndex : Bool := {b(absent_drops)}
+/-- `_perform_tree_switch(force=True)` starts from the index tree with `want_unchanged` -/
+def forceUsesIndex : Bool := {b(force_index)}
 /-- `_check_entry_for_changes` has a handler for `NotADirectoryError` / `OSError` around `os.lstat` -/
 def unstagedCatchesNotDir : Bool := {b(catches_notdir)}
 /-- `changes_from_tree`: `other_sha != sha or other_mode != mode` -/
@@ -982,6 +1003,230 @@ class Scen:
         if hd != b"ref: refs/heads/" + name.encode():
             self.ctx.oracle_fail(self.stream, self.case(), f"HEAD is {hd!r} after checkout of {name}")
         self.check_files(b, "after branch switch")
+
+    # -- reset --hard / forced checkout from states in which index, work tree and target all differ
+    def do_hardreset(self, s):
+        """porcelain.reset(hard) / checkout(force=True) / switch(force=True) to tree `s['tree']`; afterwards index and
+        work tree must be the target at every tracked path, HEAD the target, and a second reset must change nothing."""
+        from dulwich import porcelain
+        name, via = s["tree"], s.get("via", "reset")
+        T_ = self.trees[name]
+        H_ = self.trees[self.head] if self.head else {}
+        I_ = {p: (k, c) for p, (k, c, _) in self.read_index().items()}
+        W_ = {p: (f["kind"], f["cid"]) for p, f in self.snapshot().items()}
+        self.sync_model_wd()
+        err = None
+        try:
+            if via == "reset":
+                porcelain.reset(self.repo, "hard", self.commits[name].decode())
+            elif via == "checkout":
+                porcelain.checkout(self.repo, name.encode(), force=True)
+            else:
+                porcelain.switch(self.repo, name.encode(), force=True)
+        except Exception as e:  # noqa: BLE001
+            err = type(e).__name__
+        self.fs_dirty = True
+        self.tok(self.obs_tok(T_.keys()))
+        real = "ok" if err is None else "err:" + err
+        self.tok(("reset:" if via == "reset" else "forceco:") + name, lambda o, real=real: self.cmp(via, o, real))
+        self.cmp_index_files()
+        self.ctx.count(self.stream + ".hardreset", (self.label, len(self.script)), True, f"{via}:{real}")
+        if err is not None:
+            self.ctx.oracle_fail(self.stream, self.case(), f"{via} to a tree of valid paths raised {err}")
+            self.failed = True
+            return
+        self.head = name
+        idx = {p: (k, c) for p, (k, c, _) in self.read_index().items()}
+        wd = {p: (f["kind"], f["cid"]) for p, f in self.snapshot().items()}
+
+        def cls_of(p):
+            if I_.get(p) is not None and W_.get(p) is None and T_.get(p) is None:
+                return "hardreset:index-entry-kept:file-already-deleted"
+            # checkout/switch(force=True) take the changes from HEAD's tree to the target and skip equal entries: a
+            # path staged differently from HEAD, or locally modified where HEAD and the target agree, is not reset
+            if via != "reset" and (H_.get(p) != I_.get(p) or (H_.get(p) == T_.get(p) and W_.get(p) != T_.get(p))):
+                return "force-checkout:starts-from-head-not-index"
+            return None
+        tracked = set(T_) | set(I_)          # (a path only HEAD knows is untracked for the operation)
+        self.reset_exact = all(idx.get(p) == T_.get(p) for p in tracked | set(idx))
+        for p in sorted(tracked | set(idx)):
+            tags = f"I={I_.get(p)} W={W_.get(p)} T={T_.get(p)}" + (f" H={H_.get(p)}" if via != "reset" else "")
+            if idx.get(p) != T_.get(p):
+                self.ctx.oracle_fail(self.stream, self.case(path=hx(p), via=via), f"after {via} the index has {idx.get(p)} at {p!r}, the target {T_.get(p)} ({tags})", cls_of(p))
+            if p in tracked and wd.get(p) != T_.get(p):
+                self.ctx.oracle_fail(self.stream, self.case(path=hx(p), via=via), f"after {via} the work tree has {wd.get(p)} at {p!r}, the target {T_.get(p)} ({tags})", cls_of(p))
+        for p in sorted(set(W_) - tracked):
+            if wd.get(p) != W_[p]:
+                self.ctx.oracle_fail(self.stream, self.case(path=hx(p), via=via), f"{via} touched the untracked file {p!r} "
+                                     f"(H={H_.get(p)} W={W_.get(p)})", cls_of(p))
+        hd = self.repo.refs.read_ref(b"HEAD")
+        if self.repo.refs[b"HEAD"] != self.commits[name]:
+            self.ctx.oracle_fail(self.stream, self.case(), f"HEAD is {hd!r} after {via} to {name}")
+        if s.get("again") and all(idx.get(p) == T_.get(p) for p in tracked):
+            before = (self.read_index(), {p: (f["kind"], f["cid"], f["stat"][1], f["stat"][2]) for p, f in self.snapshot().items()})
+            try:
+                porcelain.reset(self.repo, "hard", self.commits[name].decode())
+            except Exception as e:  # noqa: BLE001
+                self.ctx.oracle_fail(self.stream, self.case(), f"a second reset --hard raised {type(e).__name__}")
+            self.fs_dirty = True
+            after = (self.read_index(), {p: (f["kind"], f["cid"], f["stat"][1], f["stat"][2]) for p, f in self.snapshot().items()})
+            if before != after:
+                self.ctx.oracle_fail(self.stream, self.case(), "a second reset --hard to the same commit changed the index or the work tree")
+            self.tok(self.obs_tok(T_.keys()))
+            self.tok("reset:" + name)
+            self.cmp_index_files()
+
+    # -- C git working on the same index file
+    def index_extensions(self) -> str:
+        """signatures of the extensions in .git/index (parsed here), e.g. 'TREE+UNTR'; 'v4' for index version 4."""
+        import struct
+        try:
+            data = open(self.repo.index_path(), "rb").read()
+        except FileNotFoundError:
+            return "no-index"
+        if data[:4] != b"DIRC":
+            return "?"
+        ver, n = struct.unpack(">II", data[4:12])
+        if ver >= 4:
+            return "v4"
+        off = 12
+        for _ in range(n):
+            flags = struct.unpack(">H", data[off + 60:off + 62])[0]
+            fixed = 62 + (2 if (ver >= 3 and flags & 0x4000) else 0)
+            ln = flags & 0xFFF
+            if ln == 0xFFF:
+                ln = data.index(b"\0", off + fixed) - (off + fixed)
+            off += (fixed + ln + 8) & ~7
+        sigs = []
+        while off + 8 <= len(data) - 20:
+            sigs.append(data[off:off + 4].decode("latin-1"))
+            off += 8 + struct.unpack(">I", data[off + 4:off + 8])[0]
+        return "+".join(sigs) or "none"
+
+    def git(self, *args, config=(), ok_rc=(0,)):
+        cmd = ["git"]
+        for c in config:
+            cmd += ["-c", c]
+        env = git_env(self.home)
+        env.pop("GIT_OPTIONAL_LOCKS", None)           # these commands are meant to write the index
+        p = subprocess.run(cmd + list(args), cwd=str(self.root), env=env, stdout=subprocess.PIPE, stderr=subprocess.PIPE)
+        if p.returncode not in ok_rc:
+            raise core.InfraError(f"C18 harness: git {' '.join(args)} failed: {p.stderr.decode(errors='replace')[:300]}")
+        return p.stdout
+
+    def git_index_view(self) -> dict:
+        """{path: (kind, cid)} as `git ls-files -s -z` shows the index."""
+        out = {}
+        p = subprocess.run(["git", "ls-files", "-s", "-z"], cwd=str(self.root), env=git_env(self.home), stdout=subprocess.PIPE, stderr=subprocess.PIPE)
+        if p.returncode != 0:
+            return {b"<git ls-files failed>": (p.stderr.decode(errors="replace")[:100], None)}
+        for rec in p.stdout.split(b"\0"):
+            if rec:
+                meta, path = rec.split(b"\t", 1)
+                mode, sha, stage = meta.split(b" ")
+                out[path] = ({b"100644": "r", b"100755": "x", b"120000": "l"}.get(mode, mode.decode()), self.reg.by_sha.get(sha), ) if stage == b"0" \
+                    else ("stage" + stage.decode(), None)
+        return out
+
+    def sync_model_index(self):
+        """C git has rewritten the index (and possibly HEAD): tell the model what it now holds."""
+        idx = self.read_index()
+        gv = self.git_index_view()
+        dv = {p: (k, c) for p, (k, c, _) in idx.items()}
+        if gv != dv:
+            diff = sorted(hx(p) for p in set(gv) ^ set(dv)) + sorted(hx(p) for p in gv if p in dv and gv[p] != dv[p])
+            self.ctx.oracle_fail(self.stream, self.case(differing=diff[:8]), "dulwich reads another index than git ls-files shows after a git write")
+        items = [f"{hx(p)}={k}{c}/{st[0]}/{st[1]}/{st[2]}" for p, (k, c, st) in idx.items()]
+        self.tok("idx:" + (",".join(items) if items else "."))
+
+    def do_git(self, s):
+        """a C git command that writes .git/index (and may leave extensions in it)."""
+        before_head = self.repo.refs[b"HEAD"] if b"HEAD" in self.repo.refs else None
+        self.git(*s["args"], config=s.get("config", ()), ok_rc=(0, 1) if "--refresh" in s["args"] else (0,))
+        self.fs_dirty = True
+        self.snapshot()                            # (registers the contents git may have hashed from the directory)
+        self.ctx.count(self.stream + ".git-writes", (self.label, len(self.script)), True, s["args"][0] + ":" + self.index_extensions())
+        after_head = self.repo.refs[b"HEAD"] if b"HEAD" in self.repo.refs else None
+        if after_head != before_head:
+            # git commit: HEAD's tree is what the index held
+            name = f"g{len(self.trees)}"
+            flat = {p: (k, c) for p, (k, c, _) in self.read_index().items()}
+            self.trees[name], self.commits[name] = flat, after_head
+            self.tree_ids[name] = oracle_tree_id({p: (k, self.reg.sha_of(c)) for p, (k, c) in flat.items()})
+            items = [f"{hx(p)}={k}{c}" for p, (k, c) in flat.items()]
+            self.tok(f"tree:{name}:" + (",".join(items) if items else "."))
+            self.tok(f"head:{name}")
+            self.head = name
+        self.sync_model_index()
+        self.sync_model_wd()                         # (git checkout / reset rewrite files too)
+
+    def do_gitobserve(self, s):
+        """after a dulwich mutation: what C git makes of the index must be what the model (and dulwich) hold."""
+        ext = self.index_extensions()
+        idx = self.read_index()
+        dv = {p: (k, c) for p, (k, c, _) in idx.items()}
+        gv = self.git_index_view()
+        self.ctx.count(self.stream + ".git-observe", (self.label, len(self.script)), True, "ext-left-by-dulwich:" + ext)
+        if gv != dv:
+            diff = sorted(hx(p) for p in set(gv) ^ set(dv)) + sorted(hx(p) for p in gv if p in dv and gv[p] != dv[p])
+            self.ctx.oracle_fail(self.stream, self.case(differing=diff[:8]), "git ls-files shows another index than dulwich holds after a dulwich edit")
+        # the tree: Index.commit(), git write-tree, and the id computed here from the entries git lists
+        want = oracle_tree_id({p: (k, self.reg.sha_of(c)) for p, (k, c) in gv.items() if c is not None}) if all(c is not None for _, c in gv.values()) else None
+        try:
+            got = bytes(self.repo.open_index().commit(self.repo.object_store))
+        except Exception as e:  # noqa: BLE001
+            got = b"exception " + type(e).__name__.encode()
+        p = subprocess.run(["git", "write-tree"], cwd=str(self.root), env=git_env(self.home), stdout=subprocess.PIPE, stderr=subprocess.PIPE)
+        gid = p.stdout.strip()
+        if want is not None and not (got == want == gid):
+            self.ctx.oracle_fail(self.stream, self.case(ext=ext), f"tree of the index: Index.commit() {got!r}, git write-tree {gid!r} ({p.stderr[:80]!r}), "
+                                 f"computed from the entries {want!r}")
+        mt = ",".join(sorted(f"{hx(q)}={k}{c}" for q, (k, c) in dv.items()))
+        self.tok("index", lambda o, mt=mt: self.cmp("git-observe: model index = index", ",".join(sorted(x.split("/")[0] for x in o[2:].split(","))) if o[2:] else "", mt))
+        # git diff --cached --name-status must list exactly the staged paths
+        head = self.trees[self.head] if self.head else {}
+        exp = {}
+        for q in set(head) | set(dv):
+            if q not in head:
+                exp[q] = "A"
+            elif q not in dv:
+                exp[q] = "D"
+            elif head[q] != dv[q]:
+                exp[q] = "T" if ("l" in (head[q][0], dv[q][0]) and head[q][0] != dv[q][0]) else "M"
+        p = subprocess.run(["git", "diff", "--cached", "--name-status", "-z", "--no-renames"], cwd=str(self.root), env=git_env(self.home),
+                           stdout=subprocess.PIPE, stderr=subprocess.PIPE)
+        toks = p.stdout.split(b"\0")
+        gd = {toks[i + 1]: toks[i].decode() for i in range(0, len(toks) - 1, 2)}
+        if gd != exp:
+            diff = sorted(hx(q) for q in set(gd) ^ set(exp)) + sorted(hx(q) for q in gd if q in exp and gd[q] != exp[q])
+            self.ctx.oracle_fail(self.stream, self.case(differing=diff[:8], ext=ext), f"git diff --cached --name-status lists {len(gd)} paths, staged are {len(exp)}; differing {diff[:4]}")
+        self.fs_dirty = True            # git write-tree may have rewritten the index (cache-tree)
+        self.do_status({"git": True})
+
+    def do_idxapi(self, s):
+        """the Index class used directly: index[path] = entry / del index[path], then write()."""
+        from dulwich.index import blob_from_path_and_stat, index_entry_from_stat
+        p = unhx(s["path"])
+        self.sync_model_wd([p])
+
+        def fn():
+            idx = self.repo.open_index()
+            if s["kind"] == "set":
+                st = os.lstat(self.full(p))
+                blob = blob_from_path_and_stat(self.full(p), st)
+                self.repo.object_store.add_object(blob)
+                idx[p] = index_entry_from_stat(st, blob.id)
+            else:
+                del idx[p]
+            idx.write()
+        err = None
+        try:
+            fn()
+        except Exception as e:  # noqa: BLE001
+            err = type(e).__name__
+        self.ctx.count(self.stream + ".ops", (self.label, len(self.script)), True, f"idxapi-{s['kind']}:{'ok' if err is None else err}")
+        self.tok(("stage:" if s["kind"] == "set" else "rmc:") + hx(p), lambda o, real=("ok" if err is None else "err"): self.cmp("idxapi", o.split(":")[0], real))
+        self.cmp_index_files()
 
     def do_status(self, s):
         self.sync_model_wd()
@@ -1821,6 +2066,199 @@ def _stream_samesecond(ctx, batch, stream="samesecond"):
                 break
 
 
+IWT_VALUES = [None] + [(k, c) for c in (b"a", b"b", b"c") for k in ("r", "x")]
+IWT_DIRS = [b"", b"d/", b"d/e/", b"d.x/", b"d/e/f/", b"s/", b"d-x/k/"]
+
+
+def _iwt_case(ctx, batch, stream, via, combos, label, again=True):
+    """one repository, one path per (H, I, W, T) combination, spread over nested sibling directories."""
+    sc = Scen(ctx, stream, label)
+    try:
+        paths = [IWT_DIRS[i % len(IWT_DIRS)] + b"p%d" % i for i in range(len(combos))]
+        keep = [[hx(b"keep"), "r", {"hex": hx(b"k")}], [hx(b"d/e/keep"), "r", {"hex": hx(b"k2")}]]
+
+        def ents(j):
+            return keep + [[hx(p), c[j][0], {"hex": hx(c[j][1])}] for p, c in zip(paths, combos) if c[j] is not None]
+        sc.exec({"op": "tree", "name": "h", "entries": ents(0)})
+        sc.exec({"op": "tree", "name": "t", "entries": ents(3)})
+        sc.exec({"op": "fresh", "tree": "h"})
+        if sc.failed:
+            return
+        for j, tag in ((1, "I"), (2, "W")):
+            for p, c in zip(paths, combos):
+                cur = sc.snapshot().get(p)
+                want = c[j]
+                if want is None:
+                    if cur is not None:
+                        sc.exec({"op": "unlink", "path": hx(p), "tag": tag})
+                elif cur is None or (cur["kind"], cur["cid"]) != (want[0], sc.reg.cid(want[1])):
+                    sc.exec({"op": "write", "path": hx(p), "kind": want[0], "content": {"hex": hx(want[1])}, "tag": tag})
+                if j == 1:
+                    sc.exec({"op": "stage", "path": hx(p), "via": "worktree"})
+        sc.exec({"op": "status"})
+        sc.exec({"op": "hardreset", "tree": "t", "via": via, "again": again})
+        if not sc.failed:
+            sc.exec({"op": "status", "git": True})
+            if sc.reset_exact:              # (otherwise the deviating paths have been reported one by one)
+                sc.exec({"op": "treecheck", "tree": "t", "git": True, "how": via})
+        for c in combos:
+            ctx.count(stream, (via, c), True, f"{via}:" + ("W=T!=I" if c[2] == c[3] != c[1] else "I=W=T" if c[1] == c[2] == c[3] else
+                                                          "W=I!=T" if c[1] == c[2] else "I=T!=W" if c[1] == c[3] else "all-differ"))
+    finally:
+        batch.add(sc)
+
+
+def _stream_iwt(ctx, batch, stream="iwt"):
+    """(B) histories that END in reset --hard / checkout(force=True) / switch(force=True) with index (I), work tree (W) and
+    target (T) three-way different: per path all combinations over {a, b, c, absent} x {644, 755}."""
+    import itertools
+    rng = ctx.rng
+    triples = list(itertools.product(IWT_VALUES, repeat=3))            # 343, all of them, for reset --hard
+    rng.shuffle(triples)
+    head_fixed = ("r", b"a")
+    for i in range(0, len(triples), 49):
+        _iwt_case(ctx, batch, stream, "reset", [(rng.choice(IWT_VALUES),) + t for t in triples[i:i + 49]], f"reset-all-{i // 49}")
+    quads = list(itertools.product(IWT_VALUES, repeat=4))              # with HEAD's value, for the forced checkouts
+    rng.shuffle(quads)
+    n = len(quads) if ctx.thorough else 196
+    for k, via in enumerate(("checkout", "switch")):
+        part = quads[k * n:(k + 1) * n] if not ctx.thorough else quads
+        for i in range(0, len(part), 49):
+            _iwt_case(ctx, batch, stream, via, part[i:i + 49], f"{via}-{i // 49}", again=(i == 0))
+
+
+def _gitindex_paths(rng):
+    """paths at depth 0..3 with sibling directories."""
+    base = [b"top", b"a/x", b"a/b/y", b"a/b/c/z", b"a/b2/y", b"a.b/y", b"d/w", b"d/e/f/g", b"d/e2/g", b"a/b/c/z2"]
+    rng.shuffle(base)
+    return base[: rng.choice([6, 8, 10])]
+
+
+def _stream_gitindex(ctx, batch, stream="gitindex"):
+    """(A) C git and dulwich working on the SAME index file: git leaves index extensions (cache-tree TREE, UNTR, REUC …),
+    dulwich edits the index at paths 0..3 directories deep, and after EVERY dulwich edit git is asked again: git ls-files,
+    git write-tree, git status, git diff --cached must show what dulwich and the model hold.  Also the other direction."""
+    rng = ctx.rng
+    GITW = [
+        (["write-tree"], []),
+        (["read-tree", "HEAD"], []),
+        (["checkout", "-f", "HEAD"], []),
+        (["reset", "-q", "--mixed", "HEAD"], []),
+        (["add", "-A"], []),
+        (["commit", "-q", "--allow-empty", "-m", "c"], []),
+        (["update-index", "--refresh"], []),
+        (["update-index", "--untracked-cache"], ["core.untrackedCache=true"]),
+        (["status", "--porcelain"], ["core.untrackedCache=true"]),
+        (["write-tree"], ["index.recordEndOfIndexEntries=true", "index.recordOffsetTable=true", "index.threads=2"]),
+        (["add", "-A"], ["index.version=3"]),
+        (["update-index", "--index-version", "2"], []),
+    ]
+    for i in range(ctx.budget(10, mult=6)):
+        sc = Scen(ctx, stream, "git<->dulwich")
+        try:
+            paths = _gitindex_paths(rng)
+            sc.exec({"op": "tree", "name": "t", "entries": [[hx(p), rng.choice(["r", "r", "x"]), {"hex": hx(b"v0 " + p)}] for p in paths]})
+            sc.exec({"op": "fresh", "tree": "t"})
+            if sc.failed:
+                continue
+            if rng.random() < 0.3:            # a resolved merge conflict leaves a resolve-undo (REUC) extension
+                _make_reuc(sc, rng, paths)
+            ver = 0
+            for step in range(rng.choice([4, 6, 9])):
+                # 1. C git writes the index
+                for _ in range(rng.choice([1, 1, 2])):
+                    args, cfg = rng.choice(GITW)
+                    sc.exec({"op": "git", "args": args, "config": cfg})
+                # 2. dulwich edits the index, somewhere between the top level and three directories down
+                snap, idx = sc.snapshot(), sc.read_index()
+                kind = rng.choice(["modify+stage", "modify+add", "new+add", "new+idxapi", "delete+stage", "rmc", "idxapi-del", "unstage", "addall", "chmod+stage"])
+                ver += 1
+                cand = sorted(idx)
+                p = rng.choice(cand) if cand else None
+                newp = rng.choice([b"", b"a/", b"a/b/", b"a/b/c/", b"d/e/f/", b"n/", b"n/m/o/", b"a/b/n/"]) + b"new%d" % ver
+                if kind in ("modify+stage", "modify+add") and p and p in snap:
+                    sc.exec({"op": "write", "path": hx(p), "kind": snap[p]["kind"], "content": {"hex": hx(b"v%d " % ver + p)}, "tag": "modify-diff"})
+                    sc.exec({"op": "stage", "path": hx(p), "via": "worktree" if kind == "modify+stage" else "porcelain"})
+                elif kind == "chmod+stage" and p and p in snap and snap[p]["kind"] != "l":
+                    sc.exec({"op": "chmod", "path": hx(p), "mode": 0o644 if snap[p]["kind"] == "x" else 0o755})
+                    sc.exec({"op": "stage", "path": hx(p), "via": "worktree"})
+                elif kind in ("new+add", "new+idxapi") and not conflicts(newp, list(snap) + list(idx)):
+                    sc.exec({"op": "write", "path": hx(newp), "kind": "r", "content": {"hex": hx(b"new %d" % ver)}, "tag": "add-untracked"})
+                    sc.exec({"op": "stage", "path": hx(newp), "via": "porcelain"} if kind == "new+add" else {"op": "idxapi", "kind": "set", "path": hx(newp)})
+                elif kind == "delete+stage" and p and p in snap:
+                    sc.exec({"op": "unlink", "path": hx(p)})
+                    sc.exec({"op": "stage", "path": hx(p), "via": "worktree"})
+                elif kind == "rmc" and p:
+                    sc.exec({"op": "rmc", "path": hx(p)})
+                elif kind == "idxapi-del" and p:
+                    sc.exec({"op": "idxapi", "kind": "del", "path": hx(p)})
+                elif kind == "unstage" and p:
+                    sc.exec({"op": "unstage", "path": hx(p)})
+                elif kind == "addall":
+                    sc.exec({"op": "addall"})
+                else:
+                    continue
+                # 3. C git is asked again, after EVERY dulwich edit
+                sc.exec({"op": "gitobserve"})
+                ctx.count(stream + ".edit", (i, step), True, f"{kind}:depth{(newp if kind.startswith('new') else (p or b'')).count(b'/')}")
+                # 4. the other direction: git edits what dulwich wrote, dulwich reads
+                if rng.random() < 0.5:
+                    snap, idx = sc.snapshot(), sc.read_index()
+                    tracked_on_disk = sorted(q for q in idx if q in snap)
+                    gk = rng.choice(["add", "rm-cached", "chmod"])
+                    if gk == "add" and tracked_on_disk:
+                        q = rng.choice(tracked_on_disk)
+                        sc.exec({"op": "write", "path": hx(q), "kind": snap[q]["kind"], "content": {"hex": hx(b"g%d " % ver + q)}, "tag": "modify-diff"})
+                        sc.exec({"op": "git", "args": ["add", "--", os.fsdecode(q)]})
+                    elif gk == "rm-cached" and idx:
+                        sc.exec({"op": "git", "args": ["rm", "-q", "--cached", "--", os.fsdecode(rng.choice(sorted(idx)))]})
+                    elif gk == "chmod" and tracked_on_disk:
+                        q = rng.choice(tracked_on_disk)
+                        sc.exec({"op": "git", "args": ["update-index", "--chmod=" + ("-x" if idx[q][0] == "x" else "+x"), "--", os.fsdecode(q)]})
+                    sc.exec({"op": "status", "git": True})
+            ctx.count(stream, i, True)
+        finally:
+            batch.add(sc)
+
+
+def _make_reuc(sc, rng, paths):
+    """a merge conflict at one path, resolved with git add: git records it in the resolve-undo (REUC) extension."""
+    p = os.fsdecode(rng.choice(paths))
+    try:
+        sc.git("checkout", "-q", "-b", "side")
+        with open(sc.full(os.fsencode(p)), "wb") as f:
+            f.write(b"side\n")
+        sc.git("commit", "-q", "-am", "side")
+        sc.git("checkout", "-q", "-")
+        with open(sc.full(os.fsencode(p)), "wb") as f:
+            f.write(b"ours\n")
+        sc.git("commit", "-q", "-am", "ours")
+        sc.git("merge", "-q", "side", ok_rc=(0, 1))
+        with open(sc.full(os.fsencode(p)), "wb") as f:
+            f.write(b"resolved\n")
+    except core.InfraError:
+        raise
+    sc.fs_dirty = True
+    sc.snapshot()
+    # HEAD moved (commit "ours") and a merge is in progress: register HEAD's tree, then let git record the resolution
+    out = sc.git("ls-tree", "-r", "-z", "HEAD")
+    flat = {}
+    for rec in out.split(b"\0"):
+        if rec:
+            meta, path = rec.split(b"\t", 1)
+            mode, _typ, sha = meta.split(b" ")
+            content = sc.repo.object_store[sha].data
+            flat[path] = ({b"100644": "r", b"100755": "x", b"120000": "l"}[mode], sc.reg.cid(content))
+    name = f"g{len(sc.trees)}"
+    sc.trees[name], sc.commits[name] = flat, sc.repo.refs[b"HEAD"]
+    sc.tree_ids[name] = oracle_tree_id({q: (k, sc.reg.sha_of(c)) for q, (k, c) in flat.items()})
+    sc.tok(f"tree:{name}:" + ",".join(f"{hx(q)}={k}{c}" for q, (k, c) in flat.items()))
+    sc.tok(f"head:{name}")
+    sc.head = name
+    sc.script.append({"op": "note-reuc", "path": hx(os.fsencode(p))})
+    sc.exec({"op": "git", "args": ["add", "--", p]})
+
+
 def _stream_linkdir(ctx, batch, stream="linkdir"):
     """Direct oracle only (outside the model's domain): a tracked directory replaced by a symbolic link to another
     directory; the three-way comparison and git say the tracked paths are gone."""
@@ -1903,6 +2341,8 @@ def run(ctx: core.Ctx):
     _stream_roundtrip(ctx, batch)
     _stream_switch(ctx, batch)
     _stream_edits(ctx, batch)
+    _stream_iwt(ctx, batch)
+    _stream_gitindex(ctx, batch)
     _stream_dirty_switch(ctx, batch)
     _stream_linkdir(ctx, batch)
     _stream_racy(ctx, batch)
